@@ -296,6 +296,16 @@ def gen_C05(tier, seed):
         for t2 in UNIFORM:
             for v in vals:
                 out.append(f"conv {p3(parts_of(v) + (t1,))} {t2}")
+    # the converted count lands exactly on (or one nanosecond beside) a century multiple in the target scale:
+    # the result must carry into the next century, not read {k-1, a whole century of nanoseconds}
+    zero = {0: 0, 1: -32184000000, 5: REF_NS[5], 8: REF_NS[8], 6: REF_NS[6], 7: REF_NS[7]}
+    for t1 in UNIFORM:
+        for t2 in UNIFORM:
+            for k in (-32768, -32767, -100, -2, -1, 0, 1, 2, 3, 21, 100, 32766, 32767):
+                for d in (-1, 0, 1):
+                    v = k * NPC + d + zero[t2] - zero[t1]
+                    if MINV <= v <= MAXV:
+                        out.append(f"conv {p3(parts_of(v) + (t1,))} {t2}")
     for t in UNIFORM:
         out.append(f"conv 0 0 {t} 0")      # the scale's zero on the TAI axis
         for v in vals[:12]:
